@@ -47,6 +47,16 @@ def run(prog, chk):
     chk.ob('R02.2', m, m.ln, info['dist_ok'], 'distribution is uniform_real_distribution<double>(0.0, 1.0): %s' % info['dist_txt'], key='dist')
     chk.ob('R02.2', m, m.ln, info['draw_ok'], 'r is one draw of that distribution from the file-level generator: %s' % info['draw_txt'], key='draw')
     chk.ob('R02.2', m, m.ln, info['res_ok'], 'outcome is (r < p1) ? 1 : 0 — found %s' % info['res_txt'], key='outcome')
+    # one generator: every draw of the simulator comes from the same process-wide stream — a second engine (above all one copy-constructed
+    # from the first: `static std::mt19937 resetRng{rng};`) replays the same numbers, so the k-th sampling reset and the k-th measurement
+    # are decided by the same draw
+    engines = [gl for key, gl in prog.facts.globals.items() if gl['file'].endswith('qasm_simulator.cpp') and ('mersenne_twister' in gl['type'] or 'mt19937' in gl['type'] or
+                                                                                                           'linear_congruential' in gl['type'] or 'default_random_engine' in gl['type'])]
+    for f_ in R.sim_methods():
+        for v_ in SX.walk(f_.body, into_lambdas=False) if f_.body else []:
+            if v_.get('k') == 'var' and ('mersenne_twister' in (v_.get('type') or '') or 'mt19937' in (v_.get('type') or '')):
+                engines.append({'name': f_.short + '::' + v_['name'], 'ln': v_.get('ln', 0)})
+    chk.ob('R02.2', m, m.ln, len(engines) == 1, 'the simulator draws from exactly one random engine (found %s)' % [g_['name'].split('::')[-1] for g_ in engines], key='one-generator')
     # R02.3
     for res in (0, 1):
         pk = p1 if res == 1 else 1 - p1
@@ -62,6 +72,9 @@ def run(prog, chk):
     chk.ob('R02.4', m, m.ln, info['returns_res'], 'measure returns the outcome variable on every path', key='returns-outcome')
 
     evaluator_measure_sites(prog, chk, R, m, 'R02.5')
+    # … and what is reported for a tracked qubit / register is built from those stored bits, element by element in index order
+    from .C17 import recorder_tables
+    recorder_tables(prog, chk, R, 'R02.5', 'R02.5')
 
 
 def evaluator_measure_sites(prog, chk, R, m, rule):
